@@ -1,6 +1,7 @@
 """Role discovery for the OPWKinematics solver internals (shared by C01, C04, C05, C06, C08).
 Helpers are identified by what they do (role), not by their names."""
 from . import mir, util
+from . import util as U
 from .mir import cname, strip, callee_name
 
 OPW = 'kinematics_impl::OPWKinematics'
@@ -105,6 +106,33 @@ def filter_role(prog):
                     kinds.add('none')
         if kinds == {'some', 'none'}:
             out.append(b)
+    if not out:
+        # in place: if let Some(c) = &self.constraints { solutions.retain(|s| c.compliant(s)) }  solutions
+        for b in prog.bodies.values():
+            if b.raw.get('impl_self') != OPW or b.arg_count != 2 or b.kind == 'Closure':
+                continue
+            rv = b.return_values()
+            if len(rv) != 1 or not U.is_param(strip(rv[0][0]), 2):
+                continue
+            rets = [(bi, t) for bi, t in b.calls() if cname(callee_name(t)) == 'Vec::retain']
+            if len(rets) != 1:
+                continue
+            bi, t = rets[0]
+            if not U.is_param(strip(b.op_term(t['args'][0], (bi, None))), 2):
+                continue
+            if not any(_is_discr_of_self_constraints(x) and k == 1 for x, k, sw in b.guard_terms(bi)):
+                continue
+            cb, caps = U.closure_of_term(prog, b.op_term(t['args'][1], (bi, None)))
+            crv = cb.return_values() if cb is not None else []
+            if len(crv) != 1:
+                continue
+            r = strip(U.subst_closure(cb, crv[0][0], list(caps), [('const', 'marker', 'element', None)]))
+            if isinstance(r, tuple) and r[0] == 'call' and cname(r[1]) == 'Constraints::compliant' and is_self_constraints_payload(r[2]) and \
+                    strip(r[3]) == ('const', 'marker', 'element', None):
+                others = [cname(callee_name(ct)) for ci, ct in b.calls() if ci != bi and ct['args'] and U.is_param(strip(b.op_term(ct['args'][0], (ci, None))), 2)
+                          and cname(callee_name(ct)).split('::')[0] in ('Vec', 'slice')]
+                if not others:
+                    out.append(b)
     return out
 
 
